@@ -104,11 +104,17 @@ impl FeelDaysAndTimeDuration {
   }
 }
 
+/// Keeps the number of nanoseconds within the symmetric range of durations:
+/// the longest duration has an opposite and an absolute value.
+fn clamped(nanos: i128) -> i128 {
+  nanos.max(-i128::MAX)
+}
+
 impl std::ops::Add<FeelDaysAndTimeDuration> for FeelDaysAndTimeDuration {
   type Output = Self;
   /// Returns the sum of durations.
   fn add(self, rhs: FeelDaysAndTimeDuration) -> Self {
-    Self(self.0 + rhs.0)
+    Self(clamped(self.0.saturating_add(rhs.0)))
   }
 }
 
@@ -116,7 +122,7 @@ impl std::ops::Sub<FeelDaysAndTimeDuration> for FeelDaysAndTimeDuration {
   type Output = Self;
   /// Returns the subtraction of durations.
   fn sub(self, rhs: FeelDaysAndTimeDuration) -> Self {
-    Self(self.0 - rhs.0)
+    Self(clamped(self.0.saturating_sub(rhs.0)))
   }
 }
 
@@ -124,7 +130,7 @@ impl std::ops::Neg for FeelDaysAndTimeDuration {
   type Output = Self;
   /// Returns the arithmetic negation of this duration.
   fn neg(self) -> Self {
-    Self(-self.0)
+    Self(clamped(self.0.saturating_neg()))
   }
 }
 
